@@ -13,23 +13,36 @@ def connB01 (b : Bool) : String := if b then "1" else "0"
 
 def connNatList (ws : List String) : Option (List Nat) := ws.mapM String.toNat?
 
+def ampVerdict (validated hs pr : Bool) : String :=
+  match Amp.rxVerdict validated hs pr with
+  | some true => "1"
+  | some false => "0"
+  | none => "V"
+
 def amp : List String → String
-  | ["rx", len, mig, vb, sb, rb] =>
-    match len.toNat?, mig.toNat?, vb.toNat?, sb.toNat?, rb.toNat? with
-    | some len, some mig, some vb, some sb, some rb =>
+  | ["new", tok] =>
+    -- a connection is born validated exactly when its first Initial carried a token the endpoint issued
+    match tok.toNat? with
+    | some tok =>
+      let p := if tok == 1 then Amp.step ⟨false, 0, 0⟩ .tokenValidated else ⟨false, 0, 0⟩
+      s!"{connB01 p.validated} {p.sent}"
+    | none => "bad-op"
+  | ["rx", len, mig, vb, sb, rb, hs, pr] =>
+    match len.toNat?, mig.toNat?, vb.toNat?, sb.toNat?, rb.toNat?, hs.toNat?, pr.toNat? with
+    | some len, some mig, some vb, some sb, some rb, some hs, some pr =>
       let p : Amp.Path := ⟨vb == 1, sb, rb⟩
       let p' := if mig == 1 then Amp.step p (.migrate len) else Amp.step p (.recv len)
-      -- validation is an observed event (handshake packet / token / PATH_RESPONSE processed)
-      let v := if mig == 1 then "0" else if vb == 1 then "1" else "V"
+      -- validation is PREDICTED from the harness-derived causes
+      let v := if mig == 1 then "0" else ampVerdict (vb == 1) (hs == 1) (pr == 1)
       s!"{v} {p'.sent} {p'.recvd}"
-    | _, _, _, _, _ => "bad-op"
-  | ["foreign", len, _mig, vb, sb, rb] =>
-    match len.toNat?, vb.toNat?, sb.toNat?, rb.toNat? with
-    | some len, some vb, some sb, some rb =>
+    | _, _, _, _, _, _, _ => "bad-op"
+  | ["foreign", len, _mig, vb, sb, rb, hs, pr] =>
+    match len.toNat?, vb.toNat?, sb.toNat?, rb.toNat?, hs.toNat?, pr.toNat? with
+    | some len, some vb, some sb, some rb, some hs, some pr =>
       let p' := Amp.step ⟨vb == 1, sb, rb⟩ (.foreign len)
-      let v := if vb == 1 then "1" else "V"
+      let v := ampVerdict (vb == 1) (hs == 1) (pr == 1)
       s!"{v} {p'.sent} {p'.recvd}"
-    | _, _, _, _ => "bad-op"
+    | _, _, _, _, _, _ => "bad-op"
   | "tx" :: seg :: vb :: sb :: rb :: n :: sizes =>
     match seg.toNat?, vb.toNat?, sb.toNat?, rb.toNat?, n.toNat?, connNatList sizes with
     | some seg, some vb, some sb, some rb, some n, some sizes =>
